@@ -193,9 +193,18 @@ func families(tmp string) []hcase {
 	for _, wd := range []int{3, 255, 256, 1000, 65536, 3000000} {
 		for _, b := range []string{"d", "x"} {
 			m := fmt.Sprintf("${0,%d,%s}", wd, b)
-			g := zg.Line{K: "generate", Lo: 1, Hi: 4, Step: 1, Lhs: hx.FromString("host-$"), TTL: 5, Class: 0, Order: "tc", Type: 16,
-				Rhs: []zg.Item{{Raw: hx.FromString(m), Q: false}}}
-			cs = append(cs, hcase{fam: "generate-width", text: "$GENERATE 1-4 host-$ 5 TXT " + m + "\nafter 5 A 10.0.0.9\n", allowed: false,
+			// in the owner template: an inadmissible width is an error before any record
+			g := zg.Line{K: "generate", Lo: 1, Hi: 4, Step: 1, Lhs: hx.FromString("h" + m), TTL: 5, Class: 0, Order: "tc", Type: 16,
+				Rhs: []zg.Item{{Raw: hx.FromString("x$"), Q: false}}}
+			cs = append(cs, hcase{fam: "generate-width", text: "$GENERATE 1-4 h" + m + " 5 TXT x$\nafter 5 A 10.0.0.9\n", allowed: false,
+				lines: []zg.Line{g, rrA(rel("after"), 5, 9)}, spell: true, maxRecs: 65536})
+			// in the RDATA template
+			g.Lhs, g.Rhs = hx.FromString("host-$"), []zg.Item{{Raw: hx.FromString(m), Q: false}}
+			fam := "generate-width"
+			if wd > 255 {
+				fam = "generate-rhs-bad-modifier" // (the pinned code returns a TXT record without strings before the error: known finding)
+			}
+			cs = append(cs, hcase{fam: fam, text: "$GENERATE 1-4 host-$ 5 TXT " + m + "\nafter 5 A 10.0.0.9\n", allowed: false,
 				lines: []zg.Line{g, rrA(rel("after"), 5, 9)}, spell: true, maxRecs: 65536})
 		}
 	}
@@ -324,14 +333,14 @@ func hostile(out string) {
 			}
 			li := 0
 			if c.lines[0].K == "blank" {
-				w.Emit(evLine{"line", 1, c.lines[0], []zg.Rec5{}, false})
+				w.Emit(evLine{"line", 1, c.lines[0], []zg.Rec5{}, false, c.fam})
 				li = 1
 			}
 			errFirst := o.Err != nil && len(rest) == 0
 			if len(first) <= 8 { // (the 65536-record expansions are judged through the gen vectors, by sampling)
-				w.Emit(evLine{"line", li + 1, c.lines[li], nz(first), errFirst})
+				w.Emit(evLine{"line", li + 1, c.lines[li], nz(first), errFirst, c.fam})
 				if !errFirst && len(c.lines) > li+1 {
-					w.Emit(evLine{"line", li + 2, c.lines[li+1], nz(rest), o.Err != nil})
+					w.Emit(evLine{"line", li + 2, c.lines[li+1], nz(rest), o.Err != nil, c.fam})
 				}
 			}
 		}
